@@ -16,6 +16,7 @@ import copy
 import json
 
 import common as C
+import re_probes as RP
 import engine_common as E
 import engine_extract
 import engine_impl
@@ -876,6 +877,7 @@ def run(ctx, model=True):
                 "pre/post plans, justification, release early / after held quiescence rounds / by default, second suspension sequential / nested / overlapping with the same "
                 "or another future, pause / abort during the suspension; placement is adaptive (the real engine is probed for the arrival index of the helper's wait_for); "
                 "non-trivial as in run_property (some request, refusal, failure or non-success exit)")
+    RP.add_to(res, ["settle-time"])
     return res
 
 
@@ -884,6 +886,9 @@ def run_impl_only(ctx):
 
 
 def replay(ctx, data):
+    r = RP.replay(data)
+    if r is not None:
+        return r
     _install()
     case = data.get("case") or {}
     if case.get("probe") == "real-suspender":
